@@ -11,5 +11,6 @@ import Canine.Storage.Merkle
 import Canine.Storage.Wasm
 import Canine.Oracle.Model
 import Canine.Genesis.Model
+import Canine.Genesis.Modules
 import Canine.Crypto.Sha256
 import Canine.Crypto.Sha3
